@@ -723,7 +723,9 @@ def run(res, tier, only_case=None):
                 "multipart/byteranges; 14 boundary strings (4 plain, 10 with ERE metacharacters) x 9 part-header spellings x "
                 "quoted/unquoted; payload corruption at every requested chunk; each response fed whole, byte by byte, in "
                 "k-byte pieces and at every single cut; all 1- and 2-cut partitions of small responses; sampled k-cut "
-                "partitions (pieces <= 16384) of 100-300 KB responses. non-trivial = a (response, partition) pair with at "
+                "partitions (pieces <= 16384) of 100-300 KB responses; sessions on one zckDL: the first response cut at EVERY byte "
+                "position (inside chunks, part headers, delimiters, at chunk ends), zck_dl_reset + zck_get_missing_range, then "
+                "the complete response for what is still missing; two broken transfers in a row. non-trivial = a (response, partition) pair with at "
                 "least one cut, counted per partition inside the exhaustive sweeps")
     if only_case is not None:
         cases = replay_cases(only_case)
